@@ -106,15 +106,20 @@ func (c *Ctx) emit(r Rec) {
 func (c *Ctx) Viol(props []string, sig, msg string, detail any) {
 	c.mu.Lock()
 	c.nviol++
-	n := c.nviol
+	own := false
 	for _, p := range props {
 		if p == c.Prop {
-			c.nown++
+			own = true
 			break
 		}
 	}
+	n := c.nviol - c.nown
+	if own {
+		c.nown++
+		n = c.nown
+	}
 	c.mu.Unlock()
-	if n > 40 { // one scenario cannot flood the log
+	if n > 40 { // one scenario cannot flood the log (own and foreign judgments are limited separately)
 		return
 	}
 	c.emit(Rec{T: "viol", Scn: c.Scn, Part: c.Part, Local: c.Local, Props: props, Sig: sig, Msg: msg, Detail: detail})
